@@ -68,13 +68,14 @@ PROPS = {
         "gen": ["sched_locks"],
         "pre": ["sched_build_ls"],
         "level": "proof",
-        "level_text": "Kernel-checked theorems about the Locks model (FIFO-fair read/write locks, request/grant/release steps) for every number of tasks, every set of programs and every schedule: disciplined programs (one global order on lock objects) never reach a stuck state, every run is finite and every maximal run finishes all tasks, locks exclude. Tied to the source by the regenerated table of all async lock-acquisition sites of emmylua_ls with their may-held sets (sites_ok by decide, lifted by Conforms => Disciplined), cross-validated on every run against lock traces of the real server; partial: channel/client awaits under a lock, std mutexes and timers are not modelled.",
-        "level_note": "Partial by nature: the model covers acquisition order of the seven tokio locks on straight-line paths; it does not exhibit tokio's scheduler, awaiting channels or client responses while holding a lock (reported when seen), or std::sync::Mutex sections. Trusted: Lean kernel, the site extractor (validated dynamically: every traced acquisition must be a listed site with held set inside the may-held set; coverage number in the evidence), hook H4, tokio's fairness.",
+        "level_text": "Kernel-checked theorems about the Locks model (FIFO-fair read/write locks; request/grant/release steps; wait-for-tasks steps) for every number of tasks, every set of programs and every schedule: programs that take locks in one global order on lock objects and that, while holding locks, wait only for later-spawned tasks whose remaining lock needs are all above what they hold, never reach a stuck state; every run is finite and every maximal run finishes all tasks; locks exclude. Tied to the source by two regenerated tables: all async lock-acquisition sites of emmylua_ls with their may-held sets (sites_ok by decide, lifted by Conforms => Disciplined) and all other awaits inside guard scopes with held set, needs of the awaited party and time-boundedness (awaits_ok by decide); the site table is cross-validated on every run against lock traces of the real server, the await table by a watchdog session with a workspace diagnostic in flight. Witness theorems: the order documented on the pinned tree deadlocks, re-acquisition deadlocks, draining children's channel under a lock they need deadlocks.",
+        "level_note": "Partial by nature: the model covers acquisition order of the seven tokio locks and waits for other server tasks on straight-line paths; waits for the client or an external process are covered only through their time bounds (allow-list justified in notes/sched.md); it does not exhibit tokio's scheduler or std::sync::Mutex sections. Trusted: Lean kernel, the extractor (site table validated dynamically: every traced acquisition must be a listed site with held set inside the may-held set; the await table cannot be traced by the add-only hook), hook H4, tokio's fairness.",
         "trusted_base": SCHED_TB,
         "assumptions": [
             "tokio RwLock/Mutex grant in FIFO order (a reader behind a queued writer waits); a lock is released only by its holder",
             "every path of a handler acquires locks only at extracted sites while holding a subset of the site's may-held set (checked on traces, not proved about rustc)",
-            "tasks do not block forever on anything other than the seven modelled locks",
+            "an await classified time-bounded (sleep, timeout(..), a request carrying time_cancel_token) ends after that time; a bounded-channel send ends when the receiver keeps receiving or drops the channel",
+            "tasks wait for other server tasks only through the extracted await sites",
         ],
         "technique": "invariant + progress proof over a step relation; T-src site table bridged by decide; trace conformance",
         "timeout": 1500,
@@ -82,6 +83,7 @@ PROPS = {
     },
 }
 
+# fixes made for this cluster: 0a27a3b, 8a52666, fe1e3f7, e491074, 5bda623
 HOOK_COMMITS = [
     "e302802 verif hook: H4 traced RwLock/Mutex wrappers and seeded scheduling points in emmylua_ls (feature verif)",
     "30c803d verif hook: rustfmt import order of the cfg-switched lock imports (H4)",
